@@ -352,7 +352,12 @@ fn one_case(rng: &mut Rng, rep: &mut Report, case: u64, scratch: Option<&Scratch
     equal &= judge_texts(rep, "write_all", &m, &one_text, false, has_orphans, &detail);
     // the stream lists the files in ascending order, each announced by a remark
     let headers: Vec<&str> = text.split('\n').filter_map(|l| l.strip_prefix("# ")).collect();
-    if headers != files.keys().map(|s| s.as_str()).collect::<Vec<_>>() {
+    // "sorted": the statement names no key. Ascending by the announced file name (what the repository does) and ascending by the source
+    // name of the file-level class are both accepted; the same classes in any other order, or other classes, are not.
+    let by_file: Vec<&str> = files.keys().map(|s| s.as_str()).collect();
+    let by_source: Vec<&str> = { let mut v: Vec<(&String, &String)> = files.iter().map(|(f, s)| (s, f)).collect(); v.sort(); v.into_iter().map(|(_, f)| f.as_str()).collect() };
+    if headers == by_source && headers != by_file { rep.count("text.write_all_sorted_by_source_name (accepted)"); }
+    if headers != by_file && headers != by_source {
         rep.violation("C12 text: write_all does not announce exactly the file-level classes in ascending order", json!({"headers": headers, "expected": files.keys().collect::<Vec<_>>(), "text": text, "input": detail()}));
     }
 
@@ -363,7 +368,9 @@ fn one_case(rng: &mut Rng, rep: &mut Report, case: u64, scratch: Option<&Scratch
         pieces.insert(f.clone(), String::from_utf8_lossy(&t).into_owned());
     }
     rep.add("write_one.calls", files.len() as u64);
-    let concat: String = pieces.iter().map(|(f, t)| format!("#\n# {f}\n{t}")).collect();
+    // the pieces in the order write_all announces them (judged above)
+    let order: Vec<&str> = if headers.len() == pieces.len() && headers.iter().all(|h| pieces.contains_key(*h)) { headers.clone() } else { by_file.clone() };
+    let concat: String = order.iter().map(|f| format!("#\n# {f}\n{}", pieces[*f])).collect();
     if concat != text { rep.violation("C12 determinism: write_one pieces differ from the corresponding part of write_all", json!({"write_all": text, "write_one": pieces, "input": detail()})); }
     let byte_pieces: Vec<&[u8]> = pieces.values().map(|s| s.as_bytes()).collect();
     equal &= judge_rt(rep, "read_into(write_one ...)", read_texts(&m, &byte_pieces));
